@@ -518,6 +518,9 @@ fn main() {
     let stdout = io::stdout();
     let mut out = io::BufWriter::new(stdout.lock());
     let mut slots: Vec<AisParser> = Vec::new();
+    // every slot has a twin built with `Default::default()` instead of `AisParser::new()`; both are fed every
+    // line, and an answer that differs between them is reported as `ctor-mismatch`
+    let mut twins: Vec<AisParser> = Vec::new();
     for line in stdin.lock().lines() {
         let line = match line {
             Ok(l) => l,
@@ -562,8 +565,10 @@ fn main() {
                 Ok(k) => {
                     while slots.len() <= k {
                         slots.push(AisParser::new());
+                        twins.push(AisParser::default());
                     }
                     slots[k] = AisParser::new();
+                    twins[k] = AisParser::default();
                     "ok".to_string()
                 }
                 Err(_) => "bad-op".to_string(),
@@ -572,8 +577,11 @@ fn main() {
                 (Ok(k), Some(bs)) => {
                     while slots.len() <= k {
                         slots.push(AisParser::new());
+                        twins.push(AisParser::default());
                     }
-                    do_line(&mut slots[k], *dec == "1", conv, &bs)
+                    let a1 = do_line(&mut slots[k], *dec == "1", conv, &bs);
+                    let a2 = do_line(&mut twins[k], *dec == "1", conv, &bs);
+                    if a1 == a2 { a1 } else { format!("ctor-mismatch {} ||| {}", a1, a2) }
                 }
                 _ => "bad-op".to_string(),
             },
@@ -582,6 +590,7 @@ fn main() {
                 (Ok(k), Some(bs)) => {
                     while slots.len() <= k {
                         slots.push(AisParser::new());
+                        twins.push(AisParser::default());
                     }
                     let p = &mut slots[k];
                     match catch_unwind(AssertUnwindSafe(|| p.parse(&bs, true))) {
